@@ -93,10 +93,14 @@ def compare(trace_text, model_text):
         for c in i['CHK']:
             if c.startswith('FAIL'):
                 chks.append({'idx': idx, 'world': w, 'cmd': cmd, 'args': args, 'chk': c})
-        if w in dead_worlds or cmd.startswith('X'):
+        if w in dead_worlds or cmd.startswith('_'):
             continue
         m = model.get(idx, {'R': None, 'EV': [], 'CHK': []})
         ir, mr = i['R'], m['R']
+        if mr is None or mr.startswith('model-cannot-follow'):
+            # the model lost track of this world (consequence of an earlier Undef/difference)
+            dead_worlds.add(w)
+            continue
         if mr == 'panic-undef':
             dead_worlds.add(w)
             if ir != 'panic':
@@ -112,6 +116,12 @@ def compare(trace_text, model_text):
             diffs.append({'idx': idx, 'world': w, 'cmd': cmd, 'args': args, 'impl': i['EV'], 'model': m['EV'],
                           'classes': ['events', 'ev:' + cmd]})
             dead_worlds.add(w)
+    m = re.search(r'^CRASH (.*)$', trace_text, re.M)
+    if m and ops:
+        last = max(ops)
+        w, cmd, args = ops[last]
+        diffs.append({'idx': last, 'world': w, 'cmd': cmd, 'args': args, 'impl': 'CRASH ' + m.group(1)[:300],
+                      'model': None, 'classes': ['crash']})
     for d in diffs:
         d['_impl'] = impl
     return diffs, chks, ops
@@ -186,6 +196,8 @@ def in_projection(cfg, d, ops):
     """Does the difference d count for this property?"""
     proj = cfg['projection']
     flags = None
+    if 'crash' in d['classes']:
+        return True   # the implementation process died: nothing of this history can be vouched for
     for rule in proj:
         # rule: (class-regex, required-flag or None)
         pat, need = rule
